@@ -217,7 +217,9 @@ class ModelCacheMixin:
     def split(self):
         results = super().split()
         for r in results:
-            r._models = {m.filter(r.variables) for m in self._models}
+            # add to, not replace, what adding the constraints to r has already found out (a single `x == c` constraint
+            # gives r a model and marks x exhausted; with the model gone, the exhausted marks would answer with nothing)
+            r._models.update(m.filter(r.variables) for m in self._models)
         return results
 
     def combine(self, others):
